@@ -8,7 +8,7 @@ property oracle through the real `evolve --execute --noinput` command on a real 
 import copy
 import json
 
-from .. import dbrig, evorig, sigs, simcorr
+from .. import optrig, dbrig, evorig, sigs, simcorr
 
 
 FINDING_CRASH = 'F25'
@@ -341,6 +341,9 @@ _DELM = {'t': 'DeleteModel', 'model': 'Beta'}
 _DELF = {'t': 'DeleteField', 'model': 'Beta', 'field': 'd'}
 _CHG = {'t': 'ChangeField', 'model': 'Beta', 'field': 'c', 'ftype': None, 'initial': None, 'attrs': [['null', 'true']]}
 
+_RNF = {'t': 'RenameField', 'model': 'Alpha', 'old': 'b', 'new': 'bb', 'db_column': None, 'db_table': None}
+_RNM = {'t': 'RenameModel', 'old': 'Beta', 'new': 'Gamma', 'db_table': 'vapp_beta'}
+
 # deterministic family: the residual difference between the simulated signature and the models is
 # one-directional (something only the stored side has / only the models have); the remaining
 # evolution is effective on its own, so "nothing to do" cannot hide the decision
@@ -399,6 +402,11 @@ FAMILY = [
                    {'t': 'ChangeMeta', 'model': 'Alpha', 'prop': 'db_table_comment', 'py_value': 'shelf of things'}]},
     {'spec0': _two(), 'valid': [_ADD], 'perturbation': 'family:unsupported Meta property next to a dropped AddField',
      'evolution': [{'t': 'ChangeMeta', 'model': 'Alpha', 'prop': 'db_table_comment', 'py_value': 'shelf of things'}]},
+    # a rename stated twice (the second one names a field / model that is gone), next to an ordinary change
+    {'spec0': _two(), 'valid': [_RNF, _ADD], 'perturbation': 'family:duplicate RenameField', 'evolution': [_RNF, _RNF, _ADD]},
+    {'spec0': _two(), 'valid': [_RNM, _ADD], 'perturbation': 'family:duplicate RenameModel', 'evolution': [_RNM, _RNM, _ADD]},
+    {'spec0': _two(), 'valid': [_RNM, _ADD], 'perturbation': 'family:RenameModel twice from the same old name',
+     'evolution': [_RNM, dict(_RNM, new='Delta'), _ADD]},
 ]
 
 
@@ -419,6 +427,13 @@ def model_verdict(ctx, rep):
 
 def judge(ctx, rep):
     short = {k: rep[k] for k in ('spec0', 'valid', 'perturbation', 'evolution', 'message')}
+    if rep.get('valid_only_after_optimisation') and \
+            not optrig.model_explains_optimiser(ctx, rep['spec0'], rep['evolution']):
+        # finding F29 is about what the optimiser is known to do (its Lean transliteration): when the real one does
+        # something else to this evolution, F29 does not explain why an invalid evolution got through
+        rep['valid_only_after_optimisation'] = False
+        rep['problems'].append('the upgrade was executed although the evolution is invalid one mutation at a time '
+                               '(and the optimiser did not treat it the way its model does)')
     if rep.get('gate_passed') and not rep.get('dropped_by_changed_models_filter') and \
             not rep.get('valid_only_after_optimisation'):
         # the gate let the evolver start: the model of the simulation (C12_pre_* theorems) must accept the
